@@ -83,6 +83,11 @@ fn decode_section(ctx: &mut Ctx, n: u64) -> String {
         let got = BumpString::from_utf8(BumpVec::from_iter_in(bytes.iter().copied(), &bump))
             .map(|s| s.as_bytes().to_vec())
             .map_err(|e| (e.utf8_error(), e.as_bytes().to_vec()));
+        // modelled part: accept (unchanged) iff valid UTF-8
+        let _ = writeln!(ctx.out, "op from_utf8 {} => {}", hex(&bytes), match &got {
+            Ok(g) => format!("ok:{}", hex(g)),
+            Err(_) => "err".to_string(),
+        });
         cmp(ctx, "BumpString::from_utf8", got);
         let got = FixedBumpString::from_utf8(FixedBumpVec::from_init(bump.alloc_slice_copy(&bytes)))
             .map(|s| s.as_bytes().to_vec())
@@ -111,6 +116,15 @@ fn decode_section(ctx: &mut Ctx, n: u64) -> String {
         let u = gen_u16s(&mut ctx.rng);
         let want = String::from_utf16(&u);
         c_utf16[want.is_err() as usize] += 1;
+        let u_hex = hex(&u.iter().flat_map(|x| x.to_be_bytes()).collect::<Vec<u8>>());
+        let _ = writeln!(ctx.out, "op from_utf16 {u_hex} => {}", match BumpString::from_utf16_in(&u, &bump) {
+            Ok(s) => format!("ok:{}:{}", hex(s.as_bytes()), s.capacity()),
+            Err(_) => "err".to_string(),
+        });
+        {
+            let s = BumpString::from_utf16_lossy_in(&u, &bump);
+            let _ = writeln!(ctx.out, "op from_utf16_lossy {u_hex} => ok:{}:{}", hex(s.as_bytes()), s.capacity());
+        }
         let got = BumpString::from_utf16_in(&u, &bump).map(|s| s.as_bytes().to_vec()).map_err(|_| ());
         let w = want.as_ref().map(|s| s.as_bytes().to_vec()).map_err(|_| ());
         if got != w {
@@ -178,7 +192,7 @@ fn decode_section(ctx: &mut Ctx, n: u64) -> String {
             let _ = write!(want, "{a}|{ch:?}|{num}|{a:>w$}");
             let cap = prefix.len() + ctx.rng.below(40) as usize;
             let fits = want.len() <= cap;
-            with_string::<true>(kind, &prefix, cap, &mut |mut s| {
+            with_string::<true>(kind, &prefix, Some(cap), &mut |mut s| {
                 let r = catch_unwind(AssertUnwindSafe(|| s.write_fmt_args(format_args!("{a}|{ch:?}|{num}|{a:>w$}"))));
                 c_fmt += 1;
                 let b = s.bytes();
